@@ -9,7 +9,7 @@ with the real find_breaking_changes; every Breakage.explain(style) is called;
    real vs Impl (Report)                                                    -> conformance of the model (drift note)
 and, for a seeded sample, a git repository is generated (old = tag v1, new = work tree) and
 `python -m griffe check` / `griffe.check` are run in a child process: exit code vs the in-process result.
-CatchCyclic (does _alias_incompatibilities catch CyclicAliasError?) is extracted from the working tree.
+CatchCyclic (does the finder skip cyclic re-exports?) is probed through the public API on a tiny package.
 """
 from __future__ import annotations
 
@@ -237,7 +237,9 @@ def main(tier: str, replay: str | None = None):
                 "edits from the catalogue Remove/ChangeKind/ChangeValue/RemoveBase (incompatible) and AddPublic/AddOptKw/AddReturn/AddBase (compatible) at public and private locations. "
                 "Non-trivial = state with >= 1 edit, or identical pair whose base has a public dangling/cyclic re-export; distinct by (base, edit script).")
     catch = L.catches_cyclic()
-    run.extra["catch_cyclic_extracted"] = catch
+    run.extra["catch_cyclic_probed"] = catch
+    for text in L.CATCH_NOTES:
+        run.note(text)
     rnd = random.Random(SEED)
 
     if replay:
